@@ -1471,6 +1471,27 @@ package mcp
 //@   ensures @requested-version-wins-when-offered result.1 == nil && at(answered, has(offered, wanted)) ==> result.0.ProtocolVersion == wanted
 //@   ensures @otherwise-an-sdk-version result.1 == nil && !at(answered, has(offered, wanted)) ==> sdkSupports(result.0.ProtocolVersion)
 
+// writeEvent (SSE framing, C19/C08): one event is one write to the exchange; the payload bytes go out exactly as given,
+// once, between "data: " and the blank line that ends the event; the id line is present exactly when the event has an
+// id and comes before the data (a reader that sees the terminating blank line has therefore seen the id), as do the
+// event-name and retry lines.
+//@ func writeEvent [C19, C08]
+//@   track Fprintf as nameLine when $1 == "event: %s\n"
+//@   track Fprintf as idLine when $1 == "id: %s\n"
+//@   track Fprintf as retryLine when $1 == "retry: %s\n"
+//@   track Fprintf as anyLine
+//@   track WriteString as text
+//@   track (*Buffer).Write as payload
+//@   track w.Write as out
+//@   modifies *
+//@   ensures @the-payload-goes-out-once-and-unchanged calls(payload) == 1 && callArg(payload, 1, 1) == evt.Data
+//@   ensures @the-payload-is-framed-as-one-data-field calls(text) == 2 && callArg(text, 1, 1) == "data: " && callArg(text, 2, 1) == "\n\n"
+//@   ensures @id-line-exactly-when-the-event-has-an-id calls(idLine) == (evt.ID != "" ? 1 : 0) && calls(nameLine) == (evt.Name != "" ? 1 : 0) && calls(retryLine) == (evt.Retry != "" ? 1 : 0)
+//@   ensures @no-other-lines calls(anyLine) == calls(idLine) + calls(nameLine) + calls(retryLine)
+//@   ensures @one-write-per-event calls(out) == 1 && result.0 == callResult(out, 1, 0) && result.1 == callResult(out, 1, 1)
+//@   assert at call WriteString: @fields-come-before-the-data $1 == "data: " ==> calls(payload) == 0 && calls(idLine) == (evt.ID != "" ? 1 : 0)
+//@   assert at call (*Buffer).Write: @data-prefix-first calls(text) == 1
+//@   assert at call w.Write: @the-event-is-complete-when-written calls(text) == 2 && calls(payload) == 1
 // readBatch (C19: decoding never panics on arbitrary bytes): whatever the payload - empty, blank, truncated, not JSON
 // at all - the function returns (messages or an error); a batch has exactly one decoded message per element, in
 // order, and a decoding error of any element fails the whole batch.
